@@ -23,7 +23,7 @@ LEVEL = META['level']
 RULE = ('a case = one request with its before/after snapshots (and, for accepted writes, the read-backs); distinct by (configuration, request bytes, position); '
         'non-trivial = the request was refused with the state compared, or accepted with the read-back compared')
 ASSUMPTIONS = ['reply budget 488 bytes', 'in-process sessions are distinguished by peer address, as the simulator does']
-REQUIRED = ['type-matrix:pairs', 'refused:range', 'refused:type', 'refused:unknown', 'refused:extreme-value', 'accepted:write', 'monitor:snapshot-equal', 'monitor:readback-same-session',
+REQUIRED = ['type-matrix:value-boundaries', 'type-matrix:attribute-sizes', 'type-matrix:pairs', 'refused:range', 'refused:type', 'refused:unknown', 'refused:extreme-value', 'accepted:write', 'monitor:snapshot-equal', 'monitor:readback-same-session',
             'monitor:readback-fresh-session', 'monitor:sweep', 'bound:index==len', 'bound:count==0', 'bound:index+count==len+1', 'pair:allowed-narrower', 'pair:disallowed',
             'tcp:histories', 'tcp:other-session-still-served', 'code:0x2105', 'code:0x2107', 'code:0x05']
 TIMEOUT = {'quick': 300, 'thorough': 2400}
@@ -336,7 +336,36 @@ def type_matrix(ctx):
                 req = {'path': {'segment': [{'symbolic': name}]}, 'write_tag': {'type': rc.NAME2CODE[src], 'elements': len(vals), 'data': list(vals)}}
                 script.append(('write' if arraymodel.can_hold(t, src) else 'write-type', req))
     ctx.count('type-matrix:pairs', len(script) // 2)
+    # value boundaries of every allowed (tag type, wider or differently signed source type) pair: the tag's own extremes must be
+    # accepted, one beyond them refused -- at every width, including 64 bits, where a limit computed in floating point is off by one
+    from vlib import gen
+    for name, t, n, _ in cfg:
+        if t not in gen.INT_RANGES:
+            continue
+        lo, hi = gen.INT_RANGES[t]
+        for src in types:
+            if src == t or src not in gen.INT_RANGES or src == 'BOOL' or not arraymodel.can_hold(t, src):
+                continue
+            slo, shi = gen.INT_RANGES[src]
+            for v in (hi, hi + 1, lo, lo - 1, hi - 1, lo + 1):
+                if slo <= v <= shi:
+                    req = {'path': {'segment': [{'symbolic': name}, {'element': 1}]}, 'write_tag': {'type': rc.NAME2CODE[src], 'elements': 1, 'data': [v]}}
+                    script.append(('write' if lo <= v <= hi else 'extreme', req))
+                    ctx.count('type-matrix:value-boundaries')
+    # Set Attribute Single sizes around the exact size of every fixed-size tag (odd element counts, so that a one-byte excess on a
+    # single-byte type is one whole extra element)
+    acfg = [('A_' + t, t, 3, '0x93/9/%d' % (k + 1)) for k, t in enumerate(types) if t in rc.TYPES]
+    ascript = []
+    for name, t, n, address in acfg:
+        exact = n * rc.size_of(t)
+        for ln in (exact - 1, exact, exact + 1, exact + rc.size_of(t), 0, exact * 2):
+            if ln < 0:
+                continue
+            req = {'path': {'segment': [{'class': 0x93}, {'instance': 9}, {'attribute': int(address.rsplit('/', 1)[1])}]}, 'set_attribute_single': {'data': [(7 * j + 1) % 256 for j in range(ln)]}}
+            ascript.append(('attr', req))
+            ctx.count('type-matrix:attribute-sizes')
     run_history(ctx, cfg, len(script), False, script=script)
+    run_history(ctx, acfg, len(ascript), False, script=ascript)
 
 
 def run(ctx):
